@@ -244,6 +244,39 @@ func init() {
 	}
 }
 
+// customFunctions: callbacks registered by the embedding program, pure functions of their
+// arguments; the plumbing between the interpreter and them belongs to the shared Code.
+func customFunctions() []gojq.CompilerOption {
+	return []gojq.CompilerOption{
+		gojq.WithFunction("cf", 0, 2, func(v any, args []any) any {
+			out := []any{v}
+			return append(out, args...)
+		}),
+		gojq.WithIterFunction("cit", 0, 2, func(v any, args []any) gojq.Iter {
+			vs := make([]any, 0, len(args)+1)
+			for _, a := range args {
+				vs = append(vs, []any{a})
+			}
+			return gojq.NewIter(append(vs, v)...)
+		}),
+		gojq.WithIterFunction("cit3", 3, 3, func(v any, args []any) gojq.Iter {
+			return gojq.NewIter[any]([]any{args[0], args[1], args[2]})
+		}),
+	}
+}
+
+var customProgs = []string{
+	`cf`, `cf(1)`, `cf(1; 2)`, `cf(.a?; .k?)`, `[cit]`, `[cit(1)]`, `[cit(1; 2)]`, `[cit(.a?; .k?)]`, `cit3(1; 2; 3)`, `[cit3(.a?; .k?; .)]`, `[limit(2; cit(1; 2))]`, `[.[]? | cit(.; 2)]`, `[cit(cit(1; 2); 3)]`, `reduce cit(1; 2) as $x (0; . + 1)`,
+	`[cit(1; 2), cit(3; 4)]`, `[cit((1, 2); (3, 4))]`, `cf(cf(1; 2); cf(3; 4))`, `[path(cit(.a?; .k?))]?`, `first(cit(1; 2))`, `[cit(1; 2)] | length`, `try cit(error; 1) catch "E"`, `[foreach cit(1; 2) as $x (0; . + 1)]`, `def w(f): [f]; w(cit(1; 2))`,
+	`[cit(.k?[0]; .k?[1])]`, `[range(3) as $i | cit($i; $i + 1)]`, `[cit("a"; "b")] | tojson`, `{a: cf(1; 2), b: [cit(3; 4)]}`, `[cit3(.; .; .)] | length`, `label $l | cit(1; 2), break $l`, `[cit(1; 2) | cit(.; 5)] | length`,
+}
+
+func init() {
+	for _, src := range customProgs {
+		directed = append(directed, struct{ Src, In string }{src, `{"a":{"p":1},"k":[1,2,3]}`})
+	}
+}
+
 func buildPool(seed uint64) *pool {
 	pl := &pool{}
 	for _, d := range directed {
@@ -457,7 +490,7 @@ func compileProg(p ProgSpec) (*compiled, error) {
 	if err != nil {
 		return nil, err
 	}
-	var opts []gojq.CompilerOption
+	opts := customFunctions()
 	if len(p.VarNames) > 0 {
 		opts = append(opts, gojq.WithVariables(p.VarNames))
 	}
